@@ -5,6 +5,7 @@ use crate::engine::*;
 use crate::gen::G;
 use crate::gens::*;
 use crate::shim::*;
+use crate::wire::{PVal, Param, T_BLOB, T_LONG};
 use serde::{Deserialize, Serialize};
 
 pub struct C02;
@@ -121,6 +122,178 @@ enum Accept {
     Ends,
 }
 
+/// The model of one case: the commands to send, the (id, nparams) replies the auto shim gives to the
+/// PREPAREs that reach it, and what the callback log may contain per command.
+/// `ends_at_bad`: text that is not valid UTF-8 ends the connection there (the pinned behaviour);
+/// otherwise it is answered by the library without a callback and the conversation goes on - the
+/// property only says that such text is never handed to the shim.
+struct Model {
+    cmds: Vec<Cmd>,
+    ids: Vec<Option<(u32, usize)>>,
+    accepts: Vec<Accept>,
+    has_bad_text: bool,
+    kinds_seen: std::collections::HashSet<&'static str>,
+}
+
+fn build_model(case: &Case, ends_at_bad: bool, ex: &mut Exec) -> Model {
+    let mut cmds = Vec::new();
+    let mut ids = Vec::new();
+    let mut accepts: Vec<Accept> = Vec::new();
+    let mut kinds_seen = std::collections::HashSet::new();
+    let mut ended = false; // after QUIT nothing is served
+    let mut must_err = false;
+    // long data pending per statement id (every statement declares one parameter)
+    let mut pending: std::collections::HashMap<u32, Vec<u8>> = Default::default();
+    for it in &case.items {
+        let utf8_ok = |b: &[u8]| std::str::from_utf8(b).is_ok();
+        match it {
+            Item::Query { text, class } => {
+                kinds_seen.insert("query");
+                cmds.push(Cmd::Query { text: Blob::Lit(text.clone()) });
+                if ended {
+                    accepts.push(Accept::Nothing);
+                    continue;
+                }
+                if !utf8_ok(text) {
+                    ex.class("non-utf8-text");
+                    ex.nontrivial = true;
+                    must_err = true;
+                    if ends_at_bad {
+                        accepts.push(Accept::Ends);
+                        ended = true;
+                    } else {
+                        accepts.push(Accept::Nothing);
+                    }
+                    continue;
+                }
+                let t = String::from_utf8(text.clone()).unwrap();
+                match class {
+                    QClass::Probe => {
+                        ex.class("builtin-probe");
+                        accepts.push(Accept::Nothing)
+                    }
+                    QClass::Use(name) => {
+                        ex.class("use-statement");
+                        ex.nontrivial = true;
+                        accepts.push(Accept::Exactly(Event::Init(name.clone())))
+                    }
+                    QClass::Plain => {
+                        if t.to_ascii_lowercase().contains("use") || t.contains('@') {
+                            ex.class("look-alike");
+                            ex.nontrivial = true;
+                        }
+                        accepts.push(Accept::Exactly(Event::Query(t)))
+                    }
+                    QClass::Grey => {
+                        ex.class("grey-spelling");
+                        ex.nontrivial = true;
+                        accepts.push(Accept::GreyQuery(t))
+                    }
+                }
+            }
+            Item::BigQuery { seed, len } => {
+                kinds_seen.insert("query");
+                ex.class("multi-packet-query");
+                ex.nontrivial = true;
+                cmds.push(Cmd::Query { text: Blob::Text { seed: *seed, len: *len } });
+                if ended {
+                    accepts.push(Accept::Nothing);
+                } else {
+                    accepts.push(Accept::Exactly(Event::Query(String::from_utf8(Blob::Text { seed: *seed, len: *len }.bytes()).unwrap())));
+                }
+            }
+            Item::Prepare { text, reply } => {
+                kinds_seen.insert("prepare");
+                cmds.push(Cmd::Prepare { text: Blob::Lit(text.clone()) });
+                if ended {
+                    accepts.push(Accept::Nothing);
+                    continue;
+                }
+                if !utf8_ok(text) {
+                    ex.class("non-utf8-text");
+                    ex.nontrivial = true;
+                    must_err = true;
+                    if ends_at_bad {
+                        accepts.push(Accept::Ends);
+                        ended = true;
+                    } else {
+                        accepts.push(Accept::Nothing);
+                    }
+                    continue;
+                }
+                ids.push(*reply);
+                if let Some((id, _)) = reply {
+                    pending.remove(id);
+                }
+                accepts.push(Accept::Exactly(Event::Prepare(String::from_utf8(text.clone()).unwrap())));
+            }
+            Item::Execute { id } => {
+                kinds_seen.insert("execute");
+                // the one parameter: streamed before (then omitted inline, as clients do) or a LONG
+                let (param, seen) = match pending.remove(id) {
+                    Some(data) => (Param { coltype: T_BLOB, unsigned: false, value: PVal::LongData }, SeenParam { coltype: T_BLOB, inner: Inner::Bytes(data), conv: Conv::NotTried, conv_str: None }),
+                    None => (Param { coltype: T_LONG, unsigned: false, value: PVal::Int(7) }, SeenParam { coltype: T_LONG, inner: Inner::Int(7), conv: Conv::NotTried, conv_str: None }),
+                };
+                cmds.push(Cmd::Execute { id: *id, params: vec![param], send_types: true, flags: 0, iterations: 1 });
+                accepts.push(if ended { Accept::Nothing } else { Accept::Exactly(Event::Execute { id: *id, params: vec![seen] }) });
+            }
+            Item::LongData { id, data } => {
+                kinds_seen.insert("long_data");
+                cmds.push(Cmd::LongData { id: *id, param: 0, data: Blob::Lit(data.clone()) });
+                if !ended {
+                    pending.entry(*id).or_default().extend_from_slice(data);
+                }
+                accepts.push(Accept::Nothing);
+            }
+            Item::Close { id } => {
+                kinds_seen.insert("close");
+                cmds.push(Cmd::Close { id: *id });
+                pending.remove(id);
+                accepts.push(if ended { Accept::Nothing } else { Accept::Exactly(Event::Close(*id)) });
+            }
+            Item::InitDb { name } => {
+                kinds_seen.insert("init_db");
+                cmds.push(Cmd::InitDb { name: Blob::Lit(name.clone()) });
+                if ended {
+                    accepts.push(Accept::Nothing);
+                    continue;
+                }
+                if !utf8_ok(name) {
+                    ex.class("non-utf8-text");
+                    ex.nontrivial = true;
+                    must_err = true;
+                    if ends_at_bad {
+                        accepts.push(Accept::Ends);
+                        ended = true;
+                    } else {
+                        accepts.push(Accept::Nothing);
+                    }
+                    continue;
+                }
+                accepts.push(Accept::Exactly(Event::Init(String::from_utf8(name.clone()).unwrap())));
+            }
+            Item::FieldList { arg } => {
+                kinds_seen.insert("field_list");
+                cmds.push(Cmd::FieldList { arg: arg.clone() });
+                accepts.push(Accept::Nothing);
+            }
+            Item::Ping => {
+                kinds_seen.insert("ping");
+                cmds.push(Cmd::Ping);
+                accepts.push(Accept::Nothing);
+            }
+            Item::Quit => {
+                kinds_seen.insert("quit");
+                cmds.push(Cmd::Quit);
+                accepts.push(Accept::Nothing);
+                ended = true;
+            }
+        }
+    }
+    let _ = must_err;
+    Model { cmds, ids, accepts, has_bad_text: must_err, kinds_seen }
+}
+
 impl Prop for C02 {
     type Case = Case;
     fn id(&self) -> &'static str {
@@ -165,7 +338,7 @@ impl Prop for C02 {
                         if !live.contains(&id) {
                             live.push(id);
                         }
-                        Some((id, 0))
+                        Some((id, 1))
                     };
                     items.push(Item::Prepare { text: gen_plain_text(g).into_bytes(), reply });
                 }
@@ -197,7 +370,7 @@ impl Prop for C02 {
             let bad = invalid_utf8(g);
             let it = match g.below(3) {
                 0 => Item::Query { text: bad, class: QClass::Plain },
-                1 => Item::Prepare { text: bad, reply: Some((4242, 0)) },
+                1 => Item::Prepare { text: bad, reply: Some((4242, 1)) },
                 _ => Item::InitDb { name: bad },
             };
             items.insert(at, it);
@@ -243,135 +416,14 @@ impl Prop for C02 {
     }
     fn exec(&self, case: &Case) -> Exec {
         let mut ex = Exec::default();
-        // conversation + model
-        let mut cmds = Vec::new();
-        let mut ids = Vec::new();
-        let mut accepts: Vec<Accept> = Vec::new();
-        let mut kinds_seen = std::collections::HashSet::new();
-        let mut ended = false; // after QUIT nothing is served
-        let mut must_err = false;
-        for it in &case.items {
-            let utf8_ok = |b: &[u8]| std::str::from_utf8(b).is_ok();
-            match it {
-                Item::Query { text, class } => {
-                    kinds_seen.insert("query");
-                    cmds.push(Cmd::Query { text: Blob::Lit(text.clone()) });
-                    if ended {
-                        accepts.push(Accept::Nothing);
-                        continue;
-                    }
-                    if !utf8_ok(text) {
-                        ex.class("non-utf8-text");
-                        ex.nontrivial = true;
-                        accepts.push(Accept::Ends);
-                        ended = true;
-                        must_err = true;
-                        continue;
-                    }
-                    let t = String::from_utf8(text.clone()).unwrap();
-                    match class {
-                        QClass::Probe => {
-                            ex.class("builtin-probe");
-                            accepts.push(Accept::Nothing)
-                        }
-                        QClass::Use(name) => {
-                            ex.class("use-statement");
-                            ex.nontrivial = true;
-                            accepts.push(Accept::Exactly(Event::Init(name.clone())))
-                        }
-                        QClass::Plain => {
-                            if t.to_ascii_lowercase().contains("use") || t.contains('@') {
-                                ex.class("look-alike");
-                                ex.nontrivial = true;
-                            }
-                            accepts.push(Accept::Exactly(Event::Query(t)))
-                        }
-                        QClass::Grey => {
-                            ex.class("grey-spelling");
-                            ex.nontrivial = true;
-                            accepts.push(Accept::GreyQuery(t))
-                        }
-                    }
-                }
-                Item::BigQuery { seed, len } => {
-                    kinds_seen.insert("query");
-                    ex.class("multi-packet-query");
-                    ex.nontrivial = true;
-                    cmds.push(Cmd::Query { text: Blob::Text { seed: *seed, len: *len } });
-                    if ended {
-                        accepts.push(Accept::Nothing);
-                    } else {
-                        accepts.push(Accept::Exactly(Event::Query(String::from_utf8(Blob::Text { seed: *seed, len: *len }.bytes()).unwrap())));
-                    }
-                }
-                Item::Prepare { text, reply } => {
-                    kinds_seen.insert("prepare");
-                    cmds.push(Cmd::Prepare { text: Blob::Lit(text.clone()) });
-                    if ended {
-                        accepts.push(Accept::Nothing);
-                        continue;
-                    }
-                    if !utf8_ok(text) {
-                        ex.class("non-utf8-text");
-                        ex.nontrivial = true;
-                        accepts.push(Accept::Ends);
-                        ended = true;
-                        must_err = true;
-                        continue;
-                    }
-                    ids.push(*reply);
-                    accepts.push(Accept::Exactly(Event::Prepare(String::from_utf8(text.clone()).unwrap())));
-                }
-                Item::Execute { id } => {
-                    kinds_seen.insert("execute");
-                    cmds.push(Cmd::Execute { id: *id, params: vec![], send_types: false, flags: 0, iterations: 1 });
-                    accepts.push(if ended { Accept::Nothing } else { Accept::Exactly(Event::Execute { id: *id, params: vec![] }) });
-                }
-                Item::LongData { id, data } => {
-                    kinds_seen.insert("long_data");
-                    cmds.push(Cmd::LongData { id: *id, param: 0, data: Blob::Lit(data.clone()) });
-                    accepts.push(Accept::Nothing);
-                }
-                Item::Close { id } => {
-                    kinds_seen.insert("close");
-                    cmds.push(Cmd::Close { id: *id });
-                    accepts.push(if ended { Accept::Nothing } else { Accept::Exactly(Event::Close(*id)) });
-                }
-                Item::InitDb { name } => {
-                    kinds_seen.insert("init_db");
-                    cmds.push(Cmd::InitDb { name: Blob::Lit(name.clone()) });
-                    if ended {
-                        accepts.push(Accept::Nothing);
-                        continue;
-                    }
-                    if !utf8_ok(name) {
-                        ex.class("non-utf8-text");
-                        ex.nontrivial = true;
-                        accepts.push(Accept::Ends);
-                        ended = true;
-                        must_err = true;
-                        continue;
-                    }
-                    accepts.push(Accept::Exactly(Event::Init(String::from_utf8(name.clone()).unwrap())));
-                }
-                Item::FieldList { arg } => {
-                    kinds_seen.insert("field_list");
-                    cmds.push(Cmd::FieldList { arg: arg.clone() });
-                    accepts.push(Accept::Nothing);
-                }
-                Item::Ping => {
-                    kinds_seen.insert("ping");
-                    cmds.push(Cmd::Ping);
-                    accepts.push(Accept::Nothing);
-                }
-                Item::Quit => {
-                    kinds_seen.insert("quit");
-                    cmds.push(Cmd::Quit);
-                    accepts.push(Accept::Nothing);
-                    ended = true;
-                }
-            }
-        }
+        // conversation + model (the reading in which non-UTF-8 text ends the connection classifies)
+        let Model { accepts, has_bad_text: must_err, kinds_seen, .. } = build_model(case, true, &mut ex);
+        // the other reading of non-UTF-8 text (answered by the library, connection kept): its list of
+        // PREPARE replies also covers the statements prepared after such text
+        let mut scratch = Exec::default();
+        // (the commands sent are those of this reading too: under the first one nothing after the
+        // offending text is looked at)
+        let Model { cmds, ids, accepts: accepts_kept, .. } = build_model(case, false, &mut scratch);
         if kinds_seen.len() >= 3 {
             ex.nontrivial = true;
         }
@@ -430,11 +482,16 @@ impl Prop for C02 {
             ex.fail(format!("c02-panic|{}", panic_signature(p)), format!("run_on panicked: {}", o.result.brief()));
             return ex;
         }
+        // Text that is not valid UTF-8 "is never handed to the shim": the library may end the
+        // connection there (Err; the pinned behaviour) or answer the command itself and go on (then
+        // the rest of the conversation is served and run_on returns Ok).  Which reading applies is
+        // read off the result; the callback log is then compared with that reading's model.
+        let mut accepts = accepts;
         if interrupted && o.result.is_err() {
-            // fine: reported
+            // fine: reported (the log is then a prefix of either reading's model)
         } else if must_err {
             if !o.result.is_err() {
-                ex.fail("c02-non-utf8-tolerated", format!("text that is not valid UTF-8 was sent, but run_on returned {}", o.result.brief()));
+                ex.class("non-utf8-text-answered-and-connection-kept");
             }
         } else if !o.result.is_ok() {
             ex.fail("c02-run-result", format!("run_on returned {}", o.result.brief()));
@@ -470,7 +527,18 @@ impl Prop for C02 {
             }
         }
         let mut memo = Default::default();
-        if !align(&accepts, &got, 0, 0, &mut memo, allow_prefix) {
+        let mut aligned = align(&accepts, &got, 0, 0, &mut memo, allow_prefix);
+        if !aligned && must_err {
+            // the reading in which the library answers non-UTF-8 text itself and keeps the connection
+            let mut memo2 = Default::default();
+            if align(&accepts_kept, &got, 0, 0, &mut memo2, allow_prefix) {
+                aligned = true;
+            } else if !o.result.is_err() {
+                // explain against the model of the reading the result points to
+                accepts = accepts_kept;
+            }
+        }
+        if !aligned {
             // explain with a greedy walk
             let mut gi = 0;
             let mut why = None;
